@@ -41,7 +41,7 @@ Fixpoint vla_unmarshal_seq (prev : vla) (bufs : list (list Z)) : list value :=
   | b :: t =>
     match vla_unmarshal prev b with
     | VOk (v, n) => VTag 0 (VList [VInt n; v_vla v]) :: vla_unmarshal_seq v t
-    | VErr o e => VTag 1 (VList [VInt o; VInt (err_obs e)]) :: vla_unmarshal_seq vla_empty t
+    | VErr _ _ => VTag 1 VUnit :: vla_unmarshal_seq vla_empty t
     | VPanic => VTag 2 VUnit :: vla_unmarshal_seq vla_empty t
     end
   end.
